@@ -107,7 +107,7 @@ def families(tier, seed):
     rng = random.Random(seed * 1000 + 6)
     return [Family("index-guess", guess_scripts(tier, rng), monitor=guess_monitor),
             Family("rdbx-estimate", est_scripts(tier, rng)),
-            Family("api-wraps", [(f"wrap-{k}", __import__("lib.apigen", fromlist=["x"]).replay_history(rng, tier, n_ssrc=1, steps=(120 if tier == "quick" else 900))[0])
+            Family("api-wraps", [(f"wrap-{k}", __import__("lib.apigen", fromlist=["x"]).replay_history(rng, tier, n_ssrc=1, steps=(120 if tier == "quick" else 900), wrap_prologue=(k % 2 == 0))[0])
                                  for k in range(8 if tier == "quick" else 80)],
                    monitor=lambda s, c: __import__("lib.apigen", fromlist=["x"]).replay_monitor(s, c, False)),
             # common non-zero starting ROC on both sides, damaged copies arriving before genuine packets, reorder around wraps
